@@ -107,6 +107,12 @@ Definition st_alpha (c : hctx K) (m : K) : K := m / sq2h c.
 (* is_coherent / is_squeezed / squeezing: cov /= hbar / 2 *)
 Definition st_dimless_cov (c : hctx K) (v : K) : K := v / (hb c / two).
 
+(* is_coherent(mode) / is_squeezed(mode) / squeezing() on a state with ONE mode: reduced_gaussian([0]) returns
+   self._cov itself (modes == list(range(self._modes))) and `cov /= self._hbar / 2` divides in place, so
+   the state's stored covariance matrix becomes: *)
+Definition is_coherent_1mode_store (c : hctx K) (cov : list (list K)) : list (list K) :=
+  map (map (st_dimless_cov c)) cov.
+
 (* mean_photon(mode): mu, cov of the reduced single mode in hbar units *)
 Definition mean_photon_mean (c : hctx K) (x p vxx vpp : K) : K :=
   (vxx + vpp + (x * x + p * p)) / (two * hb c) - half.
@@ -190,9 +196,9 @@ Record backend := mkBk {
 
 Inductive op :=
 | Free (id : nat) (ps : list K) (ms : list nat)      (* Dgate, Sgate, Rgate, Pgate, BSgate, CX, CZ, K, loss, Coherent, Squeezed, Thermal, Fock, MSgate(avg) ... *)
-| Xg (x : K) (k : nat)
-| Zg (p : K) (k : nat)
-| Vg (g : K) (k : nat)
+| Xg (x : K) (k : nat) (dg : bool)     (* dg: the gate carries .H *)
+| Zg (p : K) (k : nat) (dg : bool)
+| Vg (g : K) (k : nat) (dg : bool)
 | GaussDirect (V : list (list K)) (r : list K) (ms : list nat)   (* Gaussian(V, r, decomp=False) *)
 | GaussDecomp (V : list (list K)) (r : list K) (ms : list nat)   (* Gaussian(V, r): hbar-free preparation from V/(hbar/2), then X/Z gates *)
 | Homo (phi : K) (k : nat) (sel : option K)
@@ -211,14 +217,21 @@ Fixpoint disp_cmds (bk : backend) (f : K -> K) (phi : K) (us : list K) (ms : lis
   | _, _ => b
   end.
 
+(* Gate.apply: `if np.all(z == 0): return` (identity, backend not called); `if self.dagger: z = -z`.
+   For Xgate/Zgate the gate is first decomposed into Dgate(r, phi) (dagger flag moved onto it), then applied. *)
+Definition gate_apply (z : K) (dg : bool) (call : K -> B -> B) (b : B) : B :=
+  if fisz F z then b else call (if dg then - z else z) b.
+
 Definition draw1 (ds : list K) : K * list K := match ds with [] => (0, []) | d :: ds' => (d, ds') end.
 
 Definition step (c : hctx K) (bk : backend) (o : op) (b : B) (ds : list K) : B * list K * list outcome :=
   match o with
   | Free id ps ms => (bk_free bk id ps ms b, ds, [])
-  | Xg x k => (bk_displacement bk (xgate_r c x) 0 k b, ds, [])
-  | Zg p k => (bk_displacement bk (zgate_r c p) halfpi k b, ds, [])
-  | Vg g k => (bk_cubic bk (vgate_gamma c g) k b, ds, [])
+  | Xg x k dg => (gate_apply (xgate_r c x) dg (fun r => bk_displacement bk r 0 k) b, ds, [])
+  | Zg p k dg => (gate_apply (zgate_r c p) dg (fun r => bk_displacement bk r halfpi k) b, ds, [])
+  | Vg g k dg =>
+      (* Gate.apply negates p[0] = gamma before Vgate._apply multiplies by sqrt(hbar/2); zero test on gamma *)
+      (if fisz F g then b else bk_cubic bk (vgate_gamma c (if dg then - g else g)) k b, ds, [])
   | GaussDirect V r ms => (bk_prep_gauss bk (gauss_r c r) (gauss_V c V) ms b, ds, [])
   | GaussDecomp V r ms =>
       let ns := length ms in
@@ -248,9 +261,9 @@ Fixpoint run (c : hctx K) (bk : backend) (p : list op) (b : B) (ds : list K) : B
 Definition rescale (lam : K) (o : op) : op :=
   match o with
   | Free id ps ms => Free id ps ms
-  | Xg x k => Xg (lam * x) k
-  | Zg p k => Zg (lam * p) k
-  | Vg g k => Vg (g / lam) k
+  | Xg x k dg => Xg (lam * x) k dg
+  | Zg p k dg => Zg (lam * p) k dg
+  | Vg g k dg => Vg (g / lam) k dg
   | GaussDirect V r ms => GaussDirect (map (map (fun v => lam * lam * v)) V) (map (fun v => lam * v) r) ms
   | GaussDecomp V r ms => GaussDecomp (map (map (fun v => lam * lam * v)) V) (map (fun v => lam * v) r) ms
   | Homo phi k sel => Homo phi k (option_map (fun s => lam * s) sel)
